@@ -13,7 +13,8 @@ MANIFEST = {
     "text": "Model/HashOrder.lean: a hash container whose placement of new entries and rearrangement after every "
             "mutation are an arbitrary parameter (stands for RandomState, bucket layout, growth history); programs are "
             "interaction trees over its methods. Props/C20.lean proves lookup_only_program_order_independent: a "
-            "program without order-exposing operations returns the same result under any two order parameters. "
+            "program without order-exposing operations returns the same result under any two order parameters "
+            "(order_safe_program_order_independent: also when it iterates but only through permutation-invariant consumers). "
             "checks/c20.py re-extracts from the current source every use of every HashMap/HashSet-typed binding (field, "
             "local, parameter) with file:line into Gen/HashOps.lean, where all_ops_lookup_only (decide) shows each use is "
             "in the lookup-only vocabulary or is the one reviewed exception (tyinfer: self.nonterminals.keys()), covered "
@@ -32,6 +33,7 @@ P = "LalrpopModel.HashOrder."
 THEOREMS = [P + t for t in [
     "lookup_only_program_order_independent", "lookup_only_result_independent", "infer_order_independent_partial",
     "lookup_sim", "insert_sim", "remove_sim",
+    "order_safe_program_order_independent", "Prog.LookupOnly.orderSafe",
 ]] + ["LalrpopModel.Gen.HashOps.all_ops_lookup_only", "LalrpopModel.Gen.HashOps.exceptions_reviewed"]
 
 SRC = os.path.join(common.REPO, "lalrpop", "src")
